@@ -567,11 +567,16 @@ func (o *snapshotter) createSnapshot(ctx context.Context, kind snapshots.Kind, k
 		}
 	}
 
-	path = filepath.Join(snapshotDir, s.ID)
-	if err = os.Rename(td, path); err != nil {
+	// NOTE: "path" must be set only after the directory has been moved there. When this
+	// function fails the transaction is rolled back before the directories are cleaned
+	// up, so the ID can be taken by a concurrent call and the directory of that name
+	// (and the filesystem mounted on it) can be someone else's.
+	newPath := filepath.Join(snapshotDir, s.ID)
+	if err = os.Rename(td, newPath); err != nil {
 		return storage.Snapshot{}, fmt.Errorf("failed to rename: %w", err)
 	}
 	td = ""
+	path = newPath
 
 	rollback = false
 	if err = t.Commit(); err != nil {
